@@ -14,6 +14,7 @@ use std::panic::{catch_unwind, AssertUnwindSafe};
 mod gen_keys;
 mod seq;
 mod kbiso;
+mod sweep;
 use gen_keys::{key_index, ALL_KEYS};
 
 pub fn guard<T>(f: impl FnOnce() -> T) -> Option<T> {
@@ -729,6 +730,8 @@ fn main() {
         ("replay", Some("kbd")) => kbiso::replay(&args[3]),
         ("replay", _) => replay(&args[2..]),
         ("kbiso", _) => kbiso::main(&args[2..]),
+        ("sweep32", Some("set1")) => sweep::sweep::<ScancodeSet1>(),
+        ("sweep32", Some("set2")) => sweep::sweep::<ScancodeSet2>(),
         _ => {
             eprintln!("{}", usage);
             std::process::exit(2);
